@@ -43,6 +43,12 @@
 ; sig tok_less(any, any) bool
 (declare-fun tok_less (Iface Iface) Bool)
 
+;; block ip
+; net.IP.IsUnspecified as an uninterpreted predicate of the address bytes (array, offset, length):
+; the driver only branches on it.
+; sig ip_unspec(bytes, int) bool
+(declare-fun ip_unspec ((Array (_ BitVec 64) (_ BitVec 8)) (_ BitVec 64) (_ BitVec 64)) Bool)
+
 ;; block mm3
 ; Cassandra org.apache.cassandra.utils.MurmurHash.hash3_x64_128 (seed 0), first word.
 ; The running state (h1,h2) is packed into 128 bits: h1 in the high half.
